@@ -102,18 +102,25 @@ class LockstepSession(Session):
             cls = self.classdb.get_class(k["s"])
             if cls.is_empty():
                 continue
-            rec = {"s": k["s"], "e": k["e"], "got": [], "ok": False}
-            try:
+            # the key may live in the store of one-way / general rules, in the store of two-way equivalences, or in both
+            found = False
+            for store_name, store in (("rule", db.rule_to_strategy), ("eqv", db.eqv_rule_to_strategy)):
+                rec = {"s": k["s"], "e": k["e"], "got": [], "ok": False, "store": store_name, "tw": False}
                 try:
-                    strat = db.rule_to_strategy[key]
-                except KeyError:
-                    strat = db.eqv_rule_to_strategy[key]
-                rule = strat(cls)
-                got = sorted(self.classdb.get_label(c) for c in rule.children if not (rule.possibly_empty and c.is_empty()))
-                rec.update(got=[int(x) for x in got], ok=True)
-            except Exception as e:
-                rec["err"] = type(e).__name__
-            o["strat"].append(rec)
+                    try:
+                        strat = store[key]
+                    except KeyError:
+                        continue
+                    found = True
+                    rule = strat(cls)
+                    got = sorted(self.classdb.get_label(c) for c in rule.children if not (rule.possibly_empty and c.is_empty()))
+                    rec.update(got=[int(x) for x in got], ok=True, tw=bool(rule.is_two_way()))
+                except Exception as e:
+                    found = True
+                    rec["err"] = type(e).__name__
+                o["strat"].append(rec)
+            if not found:
+                o["strat"].append({"s": k["s"], "e": k["e"], "got": [], "ok": False, "store": "none", "tw": False, "err": "KeyError"})
         return o
 
 
